@@ -163,6 +163,27 @@ def h : Handler := fun op j =>
           | .error e => if e.startsWith "!py:" then pure e else .error e
           | .ok v => pure (showVal hbits v ++ " = " ++ showRes hbits (eval { vars := vars, rxn := rxn } v))
       | _ => .error "!bad-arg:num"
+  | "eqeq" => do      -- MassActionEq / GibbsEqConst .equilibrium_equation(variables, equilibrium=Equilibrium(reac, prod))
+      let stoich := fun (k : String) => do
+        let l ← (← getArr j k).mapM fun p =>
+          match p with
+          | .arr #[s, n] => do pure (← asStr s, ← asInt n)
+          | _ => .error "!bad-arg:stoich"
+        pure l
+      let reac ← stoich "reac"
+      let prod ← stoich "prod"
+      match ← getStr j "num" with
+      | "rat" =>
+          let vars ← asVars asRat j
+          match build asRat noSpecial (← field j "prog") with
+          | .error e => if e.startsWith "!py:" then pure e else .error e
+          | .ok v => pure (showRes showRat (equilibriumEquation { vars := vars, rxn := .absent } v prod reac))
+      | "float" =>
+          let vars ← asVars asBits j
+          match build asBits floatSpecial (← field j "prog") with
+          | .error e => if e.startsWith "!py:" then pure e else .error e
+          | .ok v => pure (showRes hbits (equilibriumEquation { vars := vars, rxn := .absent } v prod reac))
+      | _ => .error "!bad-arg:num"
   | "arrhenius" => do
       let a ← floatArgs j 3
       pure (bits (arrheniusEquation a[0]! a[1]! a[2]!))
